@@ -41,7 +41,7 @@ func (p *propC09) Prepare(seed uint64, tier string) int {
 	p.seed, p.tier = seed, tier
 	p.pool = buildHistPool(seed, false)
 	p.count = 4000
-	if tier == "thorough" {
+	if isThorough(tier) {
 		p.count = 150000
 	}
 	return p.count
